@@ -158,6 +158,23 @@ def flt_cases(ctx, n):
     return out
 
 
+LDBL_TOL = 64
+
+
+def ldbl_cases(ctx, n):
+    """long double literals (suffix l / L) with exponents over the whole long double range: compared, at long double precision, with strtold"""
+    rng = ctx.rng
+    out = []
+    for _ in range(n):
+        ip = str(rng.range(1, 9)) + "".join(rng.choice("0123456789") for _ in range(rng.range(0, 12)))
+        fp = "".join(rng.choice("0123456789") for _ in range(rng.range(1, 10)))
+        ex = rng.choice(["e", "E"]) + rng.choice(["", "+", "-", "-"]) + str(rng.choice([rng.range(0, 30), rng.range(23, 330), rng.range(300, 4800), 22, 23, 308, 309, 4930, 4933, 5000]))
+        form = rng.below(3)
+        t = ip + "." + fp + ex if form == 0 else ip + ex if form == 1 else ip + "." + fp
+        out.append("fltl " + hx(t + rng.choice(["l", "L"])))
+    return out
+
+
 def ulps32(a, b):
     ia, ib = struct.unpack("<i", struct.pack("<f", a))[0], struct.unpack("<i", struct.pack("<f", b))[0]
     return abs(ia - ib)
@@ -268,6 +285,24 @@ def run(ctx):
                 ctx.violation("input", {"mode": "literal", "case": line, "text": text, "observed": o,
                                         "expected": "type %s, value within 8 ulp of %r" % (want_t, float(body))})
     ctx.cov["float_worst_ulp"] = worst
+    # ---- long double literals at long double precision (oracle: strtold on the same text, in the harness)
+    ll = ldbl_cases(ctx, 6000 if thorough else 1000)
+    with ctx.timer("impl"):
+        lo, _ = C.run_harness_resilient(exe, [], ll)
+    worst_l = 0
+    for line, o in zip(ll, lo):
+        ctx.count("evaluations")
+        ctx.hist("kinds", "fltl")
+        w = o.split()
+        d = int(w[1]) if len(w) == 2 and w[0] == "okl" and w[1].isdigit() else None
+        if d is not None:
+            worst_l = max(worst_l, d)
+        if d is None or d > LDBL_TOL:
+            found += 1
+            if found <= 8:
+                ctx.violation("input", {"mode": "literal", "case": line, "text": bytes.fromhex(line.split()[1]).decode(), "observed": o,
+                                        "expected": "a long double within %d ulp of strtold of the same text" % LDBL_TOL})
+    ctx.cov["long_double_worst_ulp"] = worst_l
     ctx.cov["distinct_nontrivial"] = ctx.cov.get("distinct_nontrivial", 0) + len(set(fl))
     ctx.cov["rule"] = ("exhaustive grid of integer literals at/around 2^7..2^64 x base x 16 suffix spellings; seeded strings/chars over plain bytes and every "
                        "escape form incl. truncated/out-of-range; identifiers (keywords, reserved, ordinary, hash colliders found by search); float spellings "
